@@ -13,7 +13,9 @@
 package main
 
 import (
+	"bufio"
 	"bytes"
+	"crypto/tls"
 	"encoding/json"
 	"errors"
 	"flag"
@@ -173,9 +175,33 @@ var (
 	lnPlus  *vh.Listener
 )
 
+// a third server can upgrade its connections to TLS (transcripts whose name starts with "tls": the client sends
+// STARTTLS, shakes hands and goes on inside TLS)
+var (
+	srvTLS *imapserver.Server
+	lnTLS  *vh.Listener
+)
+
 func startServer() {
 	srv, ln = newServer(false)
 	srvPlus, lnPlus = newServer(true)
+	srvTLS, lnTLS = newServerTLS()
+}
+
+func newServerTLS() (*imapserver.Server, *vh.Listener) {
+	ln := vh.NewListener()
+	srv := imapserver.New(&imapserver.Options{
+		Caps:      imap.CapSet{imap.CapIMAP4rev1: {}, imap.CapMove: {}},
+		TLSConfig: vh.ServerTLSConfig(),
+		Logger:    srvLog,
+		NewSession: func(c *imapserver.Conn) (imapserver.Session, *imapserver.GreetingData, error) {
+			l := reg.Get(c).(*connLog)
+			l.add(evT{"ev": "NewSession"})
+			return &stub{log: l}, nil, nil
+		},
+	})
+	go srv.Serve(ln)
+	return srv, ln
 }
 
 // newServer builds a server + listener (a private one is used for cases that end with Server.Close).
@@ -255,6 +281,10 @@ func runConn(cs *caseT) *outcome {
 	if plus {
 		ln, srv = lnPlus, srvPlus
 	}
+	isTLS := strings.HasPrefix(cs.Name, "tls")
+	if isTLS {
+		ln, srv = lnTLS, srvTLS
+	}
 	if cs.Cut == "server-close" {
 		srv, ln = newServer(plus) // Server.Close is final: this case gets its own server
 	}
@@ -274,17 +304,43 @@ func runConn(cs *caseT) *outcome {
 	defer reg.Drop(sc)
 	// drain server output so that the server never blocks on writes
 	var got int64
+	var rd io.Reader = c
+	var wr io.Writer = c
+	if isTLS {
+		// STARTTLS in plaintext, the handshake, then the transcript inside TLS (cuts are made on the raw connection)
+		c.Write([]byte("s1 STARTTLS\r\n"))
+		br := bufio.NewReader(c)
+		c.SetReadDeadline(time.Now().Add(3 * time.Second))
+		for {
+			line, err := br.ReadString('\n')
+			if err != nil {
+				panic("harness: no answer to STARTTLS: " + err.Error())
+			}
+			if strings.HasPrefix(line, "s1 ") {
+				if !strings.HasPrefix(line, "s1 OK") {
+					panic("harness: STARTTLS refused: " + line)
+				}
+				break
+			}
+		}
+		c.SetReadDeadline(time.Time{})
+		tc := tls.Client(c, vh.ClientTLSConfig())
+		if err := tc.Handshake(); err != nil {
+			panic("harness: TLS handshake failed: " + err.Error())
+		}
+		rd, wr = tc, tc
+	}
 	go func() {
 		buf := make([]byte, 4096)
 		for {
-			n, err := c.Read(buf)
+			n, err := rd.Read(buf)
 			atomic.AddInt64(&got, int64(n))
 			if err != nil {
 				return
 			}
 		}
 	}()
-	c.Write(cs.Data)
+	wr.Write(cs.Data)
 	switch cs.Cut {
 	case "quiet-close":
 		// wait until the server has gone quiet (it is blocked reading in whatever mode it reached)
@@ -471,6 +527,20 @@ func runAll(cases []*caseT, outp string, out *vh.Out) {
 			break
 		}
 	}
+	// every connection has ended: the servers' registries of connections must be empty again (a closed connection
+	// that stays registered is kept alive for as long as the server lives)
+	for name, sv := range map[string]*imapserver.Server{"plain": srv, "literal+": srvPlus, "tls": srvTLS} {
+		n := -1
+		for k := 0; k < 40000; k++ {
+			if n = imapserver.VerifConnCount(sv); n == 0 {
+				break
+			}
+			time.Sleep(50 * time.Microsecond)
+		}
+		if n != 0 {
+			out.Mismatch("registry-retains/"+name, fmt.Sprintf("every connection of the run has ended, the %s server still holds %d of them in its registry (Server.conns)", name, n), nil)
+		}
+	}
 	var samples []interface{}
 	for i := 0; i < len(cases) && len(samples) < 3; i += 1 + len(cases)/3 {
 		samples = append(samples, cases[i].Label)
@@ -487,8 +557,19 @@ func firstLines(s string, n int) string {
 	return strings.Join(ls, " | ")
 }
 
+// what the client says inside TLS after a STARTTLS upgrade
+const tlsTranscript = "t2 LOGIN user pass\r\nt3 SELECT INBOX\r\nt4 FETCH 1 FLAGS\r\nt5 IDLE\r\nDONE\r\nt6 LOGOUT\r\n"
+
 func cutCases(stride int, rng *rand.Rand) []*caseT {
 	var cases []*caseT
+	for k := 0; k <= len(tlsTranscript); k++ {
+		if k%(2*stride) != 0 && k != len(tlsTranscript) {
+			continue
+		}
+		for _, cut := range []string{"close", "gone", "quiet-close"} {
+			cases = append(cases, &caseT{Name: "tls", Data: []byte(tlsTranscript[:k]), Cut: cut, Label: fmt.Sprintf("tls[:%d]/%s", k, cut)})
+		}
+	}
 	for name, t := range transcripts {
 		for k := 0; k <= len(t); k++ {
 			cuts := []string{"close"}
